@@ -238,11 +238,11 @@ static std::string run_hist(const Args &a) {
     }
     pool.destroy_all();
     // leak accounting: every block the library obtained through operator new during the history must be gone now
-    // (exact and cheap; LeakSanitizer's stop-the-world check runs every 256th history)
+    // (exact and cheap; LeakSanitizer's stop-the-world check runs every 1024th history)
     ops.clear(); ops.shrink_to_fit();
     static unsigned long counter = 0;
     bool leak = alloc_ctl().live != live_before;
-    if (!leak && (++counter % 256) == 0) leak = __lsan_do_recoverable_leak_check() != 0;
+    if (!leak && (++counter % 1024) == 0) leak = __lsan_do_recoverable_leak_check() != 0;
     alloc_ctl().live = live_before;
     out += std::string("end=") + (leak ? "leak" : "clean");
     return out;
@@ -388,10 +388,10 @@ static std::string rand_op(Rng &rng, G &g) {
 struct Out {
     Emitter &em; const Options &opt; uint64_t k = 0; bool fault;
     Out(Emitter &e, const Options &o) : em(e), opt(o), fault(o.prop == "C19") {}
-    void hist(const char *gen, const std::string &ops) {
-        if (fault) return;
-        if ((int)(k++ % opt.nslices) == opt.slice) em.emit(std::string("sshist g=") + gen + " ops=" + ops);
-    }
+    // is the next history case in this slice?  (lets a generator skip building lines it would not emit)
+    bool want_hist() { if (fault) return false; return (int)(k++ % opt.nslices) == opt.slice; }
+    void emit_hist(const char *gen, const std::string &ops) { em.emit(std::string("sshist g=") + gen + " ops=" + ops); }
+    void hist(const char *gen, const std::string &ops) { if (want_hist()) emit_hist(gen, ops); }
     void flt(const char *gen, const std::string &ops, const std::string &op, int kk) {
         if (!fault) return;
         if ((int)(k++ % opt.nslices) == opt.slice) em.emit(std::string("ssfault g=") + gen + " ops=" + ops + " op=" + op + " k=" + S(kk));
@@ -531,17 +531,19 @@ static void gen(Emitter &em, const Options &opt) {
             "m0,1", "m1,0", "m0,2", "m2,0", "m1,2", "X2;M2,0", "X2;M2,1", "X0;M0,1", "X1;M1,2", "X0;D0", "X2;D2",
             "o0,u16std:00e9d83dde00", "o1,int,-17:2d3137", "g2,600,13", "s0,1,d", "a1:22"};
         int depth = thorough ? 3 : 2;
-        std::vector<size_t> c0s = thorough ? std::vector<size_t>{0, 5, 255, 256, 257, 600} : std::vector<size_t>{0, 5, 256, 257, 600};
-        std::vector<size_t> c1s = thorough ? std::vector<size_t>{0, 254, 255, 300} : std::vector<size_t>{0, 255, 300};
-        std::vector<size_t> c2s = thorough ? std::vector<size_t>{0, 256, 700} : std::vector<size_t>{0, 700};
+        std::vector<size_t> c0s = {0, 5, 256, 257, 600};
+        std::vector<size_t> c1s = {0, 255, 300};
+        std::vector<size_t> c2s = {0, 700};
         for (size_t c0 : c0s) for (size_t c1 : c1s) for (size_t c2 : c2s) {
             std::string pro = "D0"; if (c0) pro += ";g0," + U(c0) + ",1";
             pro += ";D1"; if (c1) pro += ";g1," + U(c1) + ",2";
             pro += ";D2"; if (c2) pro += ";g2," + U(c2) + ",3";
             std::vector<size_t> idx(depth, 0);
             for (;;) {
-                std::string ops = pro; for (int d = 0; d < depth; ++d) ops += ";" + menu[idx[d]];
-                out.hist("menu", ops);
+                if (out.want_hist()) {
+                    std::string ops = pro; for (int d = 0; d < depth; ++d) ops += ";" + menu[idx[d]];
+                    out.emit_hist("menu", ops);
+                }
                 int d = depth - 1; while (d >= 0 && ++idx[d] == menu.size()) idx[d--] = 0;
                 if (d < 0) break;
             }
